@@ -55,3 +55,44 @@ func VH_C10_samedelivery() {
 	vhWholeTable(f, ref, "after the delivery")
 	verif.Cover("end")
 }
+
+// VH_C10_listener: the applied-index listener is what releases clients
+// waiting for a revision on this replica (follower writes). At the moment it
+// reports index N, a read on this replica already sees the write of N and
+// the recorded indices are at least N: an acknowledged write is never ahead
+// of what the replica serves.
+func VH_C10_listener(follower int) {
+	db := vhOpenDB()
+	_ = vhArbitraryStateSys(db, 1, 1, -1, true)
+	k, v := verif.Bytes(1), verif.Bytes(1)
+	idx := vhIndex(false)
+	var f *FSM
+	calls := 0
+	f = vhFSM(db, func(applied uint64) {
+		calls++
+		verif.Cover("listener-called")
+		out, err := f.Lookup(&regattapb.RequestOp_Range{Key: k})
+		verif.Assert(err == nil, "read inside the listener succeeds")
+		if err != nil {
+			return
+		}
+		rr := out.(*regattapb.ResponseOp_Range)
+		verif.Assert(rr.Count == 1 && len(rr.Kvs) == 1 && bytes.Equal(rr.Kvs[0].Value, v), "when an index is reported as applied, a read on this replica sees its write")
+		if follower != 0 {
+			verif.Assert(vhReadIndex(f, true) >= applied, "the recorded leader index is not behind the reported one")
+		} else {
+			verif.Assert(vhReadIndex(f, false) >= applied, "the recorded applied index is not behind the reported one")
+		}
+	})
+	cmd := &regattapb.Command{Table: []byte("t"), Type: regattapb.Command_PUT, Kv: &regattapb.KeyValue{Key: k, Value: v}}
+	if follower != 0 {
+		li := vhIndex(false)
+		cmd.LeaderIndex = &li
+	}
+	_, err := f.Update([]sm.Entry{vhEntry(idx, cmd)})
+	verif.Assert(err == nil, "apply succeeds")
+	// (whether the listener is called at all depends on the table's role: an entry
+	// without a leader index on a table that records one is not announced, C11)
+	_ = calls
+	verif.Cover("end")
+}
